@@ -25,6 +25,7 @@ structure Grant where
   exp : Nat          -- seconds
   user : List UInt8
   key : Nat
+  startNs : Nat := 0 -- nanoseconds past `start` (a grant stored by code may carry a sub-second start; the wire cannot)
 deriving DecidableEq, Repr
 
 /-- `HopServer`: the grant map (`agMap[user][key]` lists, here one list in insertion order) and the
@@ -63,7 +64,7 @@ def ns : Nat := 1000000000
 
 /-- the condition of `checkCmd`'s loop body for one grant (`now` in nanoseconds) -/
 def admits (now : Nat) (cmd : List UInt8) (shell : Bool) (g : Grant) : Bool :=
-  decide (now < g.exp * ns) && decide (g.start * ns ≤ now) &&
+  decide (now < g.exp * ns) && decide (g.start * ns + g.startNs ≤ now) &&
     ((!shell && g.gtype == gCommand && g.cmd == cmd) || (shell && g.gtype == gShell))
 
 /-- `checkCmd`: first matching grant is removed from the session and returned -/
